@@ -300,6 +300,11 @@ API_CHECKS = {
 def check_api(prop, tier, deadline):
     rep = Report(prop, tier, "model_checking")
     runs = []
+    table = None
+    if prop == "C09":
+        table = run_misc("setters", tier)
+        for v in table["violations"]:
+            rep.add("setter_table/" + v["sig"], "typed setter misbehaves for " + v["case"], {"engine": "misc", "mode": "setters", "tier": tier, "input": v["case"]}, v["count"])
     per = deadline / max(1, len(API_CHECKS[prop]))
     for flavour, alphabet, oracles, dq, dt in API_CHECKS[prop]:
         d = run_api(flavour, alphabet, oracles, dq if tier == "quick" else dt, tier, per)
@@ -307,6 +312,8 @@ def check_api(prop, tier, deadline):
         runs.append(d)
         shutil.rmtree(d["_scratch"], ignore_errors=True)
     rep.coverage = cov_from_api(runs)
+    if table:
+        rep.coverage["setter_table"] = {k: table[k] for k in ("shapes", "evaluations", "expected_accept", "expected_refuse", "samples")}
     rep.assumptions = ["the public accessors expose every field that influences a later public call (state hash soundness; checked by the replay-divergence assertion on every transition)",
                        "histories are bounded by the shape guards and depth recorded in coverage.runs"]
     return rep.finish()
@@ -448,6 +455,35 @@ def check_c16(tier, deadline):
                     "runs": [{k: d[k] for k in ("flavour", "profile", "cases", "single_damage_cases", "pair_cases", "done", "outcomes", "wall_s", "limit_s", "bases")} for d in runs],
                     "samples": runs[0]["samples"]}
     rep.assumptions = ["an allocation request that fails at once even under an 8 GiB cap (std::length_error / std::bad_alloc from an absurd count) is a clean refusal; growth that only the small cap stops is reported as memory_not_proportional"]
+    return rep.finish()
+
+
+# ---------------------------------------------------------------------------------------------- C17 / setter table
+def run_misc(mode, tier, extra=()):
+    bdir = build("plain", ("drv_misc",))
+    sc = scratch_dir(mode); out = os.path.join(sc, "out.json")
+    cmd = [os.path.join(bdir, "drv_misc"), "--mode", mode, "--tier", tier, "--scratch", sc, "--out", out, "--workers", str(WORKERS)] + list(extra)
+    r = sh(cmd, capture_output=True, text=True)
+    if r.returncode != 0 or not os.path.exists(out):
+        log("driver failed", " ".join(cmd), r.stdout[-1000:], r.stderr[-1000:]); raise SystemExit(3)
+    d = json.load(open(out)); shutil.rmtree(sc, ignore_errors=True)
+    return d
+
+
+def check_c17(tier, deadline):
+    rep = Report("C17", tier, "exploration")
+    d = run_misc("c17", tier)
+    log(f"[limits] cases={d['cases']} outcomes={d['outcomes']} {d['wall_s']}s")
+    for v in d["violations"]:
+        rep.add(v["sig"], v["detail"], {"engine": "misc", "mode": "c17", "tier": tier, "input": v["case"]}, v["count"])
+    rep.coverage = {"evaluations": d["done"], "distinct_nontrivial": d["done"],
+                    "rule": "for each capacity limit L (parameter description 255, parameter/group name 127, dimension entry 255, string length 255, string count 255, points 255, channels 255, "
+                            "frames 32767, 16-bit integer extremes, parameter blocks 255, record next-offset 65535) content built through the API at L-1, L, L+1 and far beyond, alone (quick) and in all "
+                            "pairs (thorough; pairs with > 10^7 points are not built); at or below L: save, reload, compare; above L: save must throw or the reload must equal the saved object; "
+                            "a failing pair that contains a failing single is attributed to that single. The last-frame-number limit 65535 is not reachable through the API (first frame is always 1) "
+                            "and is covered on the file side by C12's header sweep",
+                    "exhaustive": d["done"] >= d["cases"], "outcomes": d["outcomes"], "cases": d["cases"], "single_cases": d["single_cases"], "pair_cases": d["pair_cases"],
+                    "pair_violations_explained_by_a_failing_single": d["pair_violations_explained_by_a_failing_single"], "samples": d["samples"]}
     return rep.finish()
 
 
@@ -596,6 +632,14 @@ def do_replay(path):
         rc = sh(cmd).returncode
         shutil.rmtree(sc, ignore_errors=True)
         return rc
+    if r.get("engine") == "misc":
+        bdir = build("plain", ("drv_misc",))
+        sc = scratch_dir("replay")
+        cmd = [os.path.join(bdir, "drv_misc"), "--mode", r["mode"], "--tier", r.get("tier", "quick"), "--case", r["input"], "--scratch", sc]
+        print("replaying:", " ".join(cmd)); print("expected signature:", r.get("signature"))
+        rc = sh(cmd).returncode
+        shutil.rmtree(sc, ignore_errors=True)
+        return rc
     if r.get("engine") == "fault":
         bdir = build("plain", ("drv_fault",))
         sc = scratch_dir("replay")
@@ -634,6 +678,8 @@ def main():
             return check_c15(tier, deadline)
         if a.prop == "C16":
             return check_c16(tier, deadline)
+        if a.prop == "C17":
+            return check_c17(tier, deadline)
         if a.prop == "C13":
             return check_c13(tier, deadline)
         print("no check for", a.prop)
